@@ -65,6 +65,9 @@ def c18(ctx):
 
 def c20(ctx):
     ctx.gotest("compression", "^TestVerifC20", race=False, timeout=1800)
+    # the same instance histories on a machine with few processors (constructors may size themselves by GOMAXPROCS)
+    for gm in (("2",) if ctx.tier == "quick" else ("1", "2", "3", "5")):
+        ctx.gotest("compression", "^TestVerifC20(Pool|Constructors|CompressorReuse)$", race=False, timeout=1800, label="compression-c20-gomaxprocs%s" % gm, env={"GOMAXPROCS": gm})
     ctx.gotest("tracer", "^TestVerifC20", race=True, timeout=900)
     ctx.gotest("internal", "^TestVerifC20", race=False, timeout=600)
     ctx.gotest("refserver", "^TestVerifC20", race=False, timeout=900)
@@ -464,7 +467,7 @@ SPECS = {
             "assumptions": ["porcupine v1.3.0 is a correct linearizability checker", "time.Since on one process is a monotonic clock"]},
     "C20": {"fn": c20, "level": "exploration",
             "technique": "runtime monitoring: pool-protocol histories (connect-go's reset/close/reuse discipline) with injected corrupt and truncated streams on the real compressor/decompressor instances; independent use of each named algorithm as oracle; wire exchange with the real reference peers",
-            "text": "For each of the six encodings one pooled compressor and decompressor instance is driven through every history of length 4 over {valid, bit-flip, cut, garbage, empty, independent-encoder} (longer random ones in thorough), plus every single-bit flip and cut of short streams followed by a valid decode; every valid decode must be exact. Compressor output must be decodable by an independent implementation of the algorithm the name denotes - for the enum, the registered constructors, tracer.GetDecompressor (any letter case), the raw-payload encoder, and the real reference server on the wire. Compressor instances are additionally driven through histories with abandoned messages (Reset without Close), failing sinks and repeated Resets, and decompressors obtained from the wire tracer are used interleaved and concurrently (race detector) to show that every caller owns its instance. Several pooled decompressor instances are interleaved in one goroutine, multi-MiB messages are decoded by instances that were closed and parked before (from *bytes.Buffer and other sources), and the body tracer is shown a damaged compressed end-of-stream message followed by an intact one.",
+            "text": "For each of the six encodings one pooled compressor and decompressor instance is driven through every history of length 4 over {valid, bit-flip, cut, garbage, empty, independent-encoder} (longer random ones in thorough), plus every single-bit flip and cut of short streams followed by a valid decode; every valid decode must be exact. Compressor output must be decodable by an independent implementation of the algorithm the name denotes - for the enum, the registered constructors, tracer.GetDecompressor (any letter case), the raw-payload encoder, and the real reference server on the wire. Compressor instances are additionally driven through histories with abandoned messages (Reset without Close), failing sinks and repeated Resets, and decompressors obtained from the wire tracer are used interleaved and concurrently (race detector) to show that every caller owns its instance. Several pooled decompressor instances are interleaved in one goroutine, multi-MiB messages are decoded by instances that were closed and parked before (from *bytes.Buffer and other sources), and the body tracer is shown a damaged compressed end-of-stream message followed by an intact one. The instance histories of the compression package are repeated with GOMAXPROCS 2 (thorough: 1, 2, 3, 5), and one decompressor obtained from the tracer is driven over 48 (thorough 160) messages up to 512 KiB - 12 MiB and more of cumulative output - each of which must still decode exactly.",
             "note": "Corruption detection is not claimed (brotli/identity have no integrity check) - only that later valid input decodes correctly and nothing crashes.",
             "assumptions": ["stdlib gzip/zlib, andybalholm/brotli, klauspost/zstd and golang/snappy used directly are the meaning of the encoding names"]},
     "C18": {"fn": c18, "level": "exploration",
